@@ -480,7 +480,14 @@ class Search:
         """Two histories that the search merged (same canonical daemon + observer state) must treat a newly announced
         client identically: runs each continuation after both histories on the real daemon and compares what is written
         (routing serials masked).  Returns (pairs checked, [(text, replay)])."""
-        pairs = [m for b in sorted(self.merges) for m in self.merges[b]][:limit]
+        # round-robin over the buckets (event kind, reply/password kind, depth, self-loop) so that a limit never drops a whole kind
+        buckets = [list(self.merges[b]) for b in sorted(self.merges, key=repr)]
+        pairs = []
+        while buckets and len(pairs) < limit:
+            for bl in buckets:
+                if bl and len(pairs) < limit:
+                    pairs.append(bl.pop(0))
+            buckets = [bl for bl in buckets if bl]
         self.merge_observed = []      # observer violations on the continuations: [(tag, text, replay)]
         if not pairs:
             return 0, []
